@@ -219,6 +219,10 @@ CORRUPTIONS = [
     ("zero-arity fluent given an argument", {"init": "(= (g o1) 1)"}),
     ("init fact over an undeclared object", {"init": "(p o9)"}),
     ("init fluent over an undeclared object", {"init": "(= (f o9) 1)"}),
+    ("init fact over an undeclared object in a position of the root type", {"init": "(ob o9)"}),
+    ("init fact over an undeclared object in an untyped position", {"init": "(un o9)"}),
+    ("goal literal over an undeclared object in a position of the root type", {"goal": "(ob o9)"}),
+    ("goal literal over an undeclared object in an untyped position", {"goal": "(un zz)"}),
     ("init fact whose object has a non-conforming type", {"init": "(p u1)"}),
     ("init fact whose object has a supertype of the required type", {"init": "(s x1)", "objects": "o1 o2 - t1 o3 - t3 u1 - t2 x1 - object"}),
     ("init fluent whose object has a non-conforming type", {"init": "(= (f u1) 1)"}),
